@@ -60,45 +60,45 @@ type excPerm struct {
 	why  string
 }
 
-// explicit list: API functions documented to write into, keep, or return a view of caller memory
-var docExceptions = map[string]struct {
-	params []int // callee parameter indices (receiver = 0 for methods)
-	w, k   bool  // may write through them / may keep them
-	view   bool
-	why    string
-}{
-	"(streamingaead/subtle.aesGCMHKDFSegmentEncrypter).EncryptSegmentWithDst": {[]int{1}, true, false, true, "implements noncebased's segmentEncrypterWithDst: the result is appended to the caller-supplied dst by contract"},
-	"(streamingaead/subtle.aesGCMHKDFSegmentDecrypter).DecryptSegmentWithDst": {[]int{1}, true, false, true, "implements noncebased's segmentDecrypterWithDst: the result is appended to the caller-supplied dst by contract"},
-	"(streamingaead/subtle.aesCTRHMACSegmentEncrypter).EncryptSegmentWithDst": {[]int{1}, true, false, true, "implements noncebased's segmentEncrypterWithDst: the result is written into the caller-supplied dst by contract"},
-	"(streamingaead/subtle.aesCTRHMACSegmentDecrypter).DecryptSegmentWithDst": {[]int{1}, true, false, true, "implements noncebased's segmentDecrypterWithDst: the result is written into the caller-supplied dst by contract"},
-	"(*keyset.MemReaderWriter).Read":                                          {[]int{0}, false, true, true, "in-memory keyset.Reader/Writer: it holds the keyset object it was given and hands the same object back - that is its documented purpose"},
-	"(*keyset.MemReaderWriter).ReadEncrypted":                                 {[]int{0}, false, true, true, "in-memory keyset.Reader/Writer: it holds the keyset object it was given and hands the same object back - that is its documented purpose"},
-	"(*keyset.MemReaderWriter).Write":                                         {[]int{0, 1}, false, true, false, "in-memory keyset.Reader/Writer: it holds the keyset object it was given and hands the same object back - that is its documented purpose"},
-	"(*keyset.MemReaderWriter).WriteEncrypted":                                {[]int{0, 1}, false, true, false, "in-memory keyset.Reader/Writer: it holds the keyset object it was given and hands the same object back - that is its documented purpose"},
-	"signature/subtle.NewED25519SignerFromPrivateKey":                         {[]int{0}, false, true, false, "takes a POINTER to the caller's ed25519.PrivateKey and keeps it: sharing is what the signature says"},
-	"signature/subtle.NewED25519VerifierFromPublicKey":                        {[]int{0}, false, true, false, "takes a POINTER to the caller's ed25519.PublicKey and keeps it: sharing is what the signature says"},
+// EXPLICIT EXCEPTION LIST: every entry names the function, the parameter (callee parameter index; receiver = 0
+// for methods; -1 = the result may be a view), what the function may do with it (write through it / keep it),
+// and why.  Nothing is exempted by a naming rule or by the shape of a type.
+type excSpec struct {
+	param int
+	w, k  bool
+	why   string
+}
+
+const whyWithDst = "implements noncebased's segment...WithDst interface: by that contract the result is written into / appended to the caller-supplied dst and returned as a view of it"
+const whyStreamSelf = "the receiver is the state of ONE stream (an io.Writer / io.Reader handed to one caller): the method fills its own plaintext / ciphertext buffers and stores re-slices of them back into itself; nothing here is a key, handle or primitive shared between callers"
+const whyReadP = "io.Reader contract: Read fills the caller's buffer p for the duration of the call (it may write it, it may not keep it)"
+const whyMemRW = "keyset.MemReaderWriter is the in-memory keyset.Reader/Writer: holding the keyset object it was given and handing the same object back is what it is for"
+
+var docExceptions = map[string][]excSpec{
+	"(streamingaead/subtle.aesGCMHKDFSegmentEncrypter).EncryptSegmentWithDst": {{1, true, false, whyWithDst}, {-1, false, false, whyWithDst}},
+	"(streamingaead/subtle.aesGCMHKDFSegmentDecrypter).DecryptSegmentWithDst": {{1, true, false, whyWithDst}, {-1, false, false, whyWithDst}},
+	"(streamingaead/subtle.aesCTRHMACSegmentEncrypter).EncryptSegmentWithDst": {{1, true, false, whyWithDst}, {-1, false, false, whyWithDst}},
+	"(streamingaead/subtle.aesCTRHMACSegmentDecrypter).DecryptSegmentWithDst": {{1, true, false, whyWithDst}, {-1, false, false, whyWithDst}},
+	"(*streamingaead/subtle/noncebased.Writer).Write":                         {{0, true, true, whyStreamSelf}},
+	"(*streamingaead/subtle/noncebased.Writer).Close":                         {{0, true, true, whyStreamSelf}},
+	"(*streamingaead/subtle/noncebased.Reader).Read":                          {{0, true, true, whyStreamSelf}, {1, true, false, whyReadP}},
+	"(*streamingaead.unreader).Read":                                          {{0, true, true, whyStreamSelf}, {1, true, false, whyReadP}},
+	"(*keyset.MemReaderWriter).Read":                                          {{0, false, true, whyMemRW}, {-1, false, false, whyMemRW}},
+	"(*keyset.MemReaderWriter).ReadEncrypted":                                 {{0, false, true, whyMemRW}, {-1, false, false, whyMemRW}},
+	"(*keyset.MemReaderWriter).Write":                                         {{0, false, true, whyMemRW}, {1, false, true, whyMemRW}},
+	"(*keyset.MemReaderWriter).WriteEncrypted":                                {{0, false, true, whyMemRW}, {1, false, true, whyMemRW}},
+	"signature/subtle.NewED25519SignerFromPrivateKey":                         {{0, false, true, "the parameter is a POINTER to the caller's ed25519.PrivateKey, which the signer keeps: the sharing is visible in the signature (the function's comment does not mention it)"}},
+	"signature/subtle.NewED25519VerifierFromPublicKey":                        {{0, false, true, "the parameter is a POINTER to the caller's ed25519.PublicKey, which the verifier keeps: the sharing is visible in the signature (the function's comment does not mention it)"}},
 }
 
 func (d *fnDecl) exceptions() {
 	d.excReg = map[int]excPerm{}
-	sig := d.fn.Type().(*types.Signature)
-	base := 0
-	if sig.Recv() != nil {
-		base = 1
-		if perStreamType(d.p, d.rel, recvNamed(sig)) {
-			d.excReg[0] = excPerm{true, true, "per-stream object (has Write/Read/Close): its buffers are the state of one stream, not of a key, handle or primitive"}
-		}
-	}
-	if d.fd.Name.Name == "Read" && sig.Params().Len() == 1 && kindOf(sig.Params().At(0).Type()) == kSlice {
-		d.excReg[base] = excPerm{true, false, "io.Reader contract: Read fills the caller's buffer (it may write it, not keep it)"}
-	}
-	if e, ok := docExceptions[shortKey(d.key)]; ok {
-		for _, p := range e.params {
-			d.excReg[p] = excPerm{e.w, e.k, e.why}
-		}
-		if e.view {
+	for _, e := range docExceptions[shortKey(d.key)] {
+		if e.param < 0 {
 			d.viewWhy = e.why
+			continue
 		}
+		d.excReg[e.param] = excPerm{e.w, e.k, e.why}
 	}
 }
 
@@ -108,7 +108,7 @@ func translateBody(d *fnDecl) *bodyTr {
 	t := &bodyTr{p: d.p, fd: d.fd, fn: d.fn, strict: d.strict, viewOK: d.viewWhy != "", regOf: map[types.Object]int{},
 		closures: map[types.Object]*ast.FuncLit{}, tracked: map[types.Object]bool{},
 		parent: map[types.Object]types.Object{}, clsSize: map[types.Object]int{}, isParam: map[types.Object]bool{},
-		objRegs: map[int]bool{}, closures0: map[types.Object]*ast.FuncLit{}, paramType: map[int]types.Type{}}
+		objRegs: map[int]bool{}, classRegs: map[int]bool{}, closures0: map[types.Object]*ast.FuncLit{}, paramType: map[int]types.Type{}}
 	sig := d.fn.Type().(*types.Signature)
 	if (sig.TypeParams().Len() > 0 || sig.RecvTypeParams().Len() > 0) && d.strict {
 		// an internal generic helper is translated with its type parameters standing for types that carry
@@ -375,7 +375,7 @@ func summarize(d *fnDecl, t *bodyTr) (*summary, []bool, []bool, []string) {
 	for i := range s.res {
 		k := kindOf(sig.Results().At(i).Type())
 		s.res[i].kind = k
-		if k != kSlice && k != kObj {
+		if k != kSlice && k != kObj && !(isIfaceT(sig.Results().At(i).Type()) && a.resSeen[i]) {
 			continue
 		}
 		s.res[i].seen = a.resSeen[i]
@@ -429,14 +429,58 @@ func hasIfaceParam(sig *types.Signature) bool {
 
 var relOfPkg = map[*pkgInfo]string{}
 
+// what the scan did not look at
+type scanStat struct {
+	scanned int
+	skipped []string // package directories with non-test Go files under the directories goPackages skips
+	failed  []string // package directories that could not be loaded
+}
+
+var scanStats scanStat
+
+func skippedPackages(root string) []string {
+	seen := map[string]bool{}
+	for _, d := range goPackages(root) {
+		seen[d] = true
+	}
+	var out []string
+	filepath.Walk(root, func(p string, fi os.FileInfo, err error) error {
+		if err != nil || !fi.IsDir() {
+			return nil
+		}
+		if fi.Name() == ".git" {
+			return filepath.SkipDir
+		}
+		if seen[p] {
+			return nil
+		}
+		ms, _ := filepath.Glob(filepath.Join(p, "*.go"))
+		for _, m := range ms {
+			if !strings.HasSuffix(m, "_test.go") {
+				rel, _ := filepath.Rel(root, p)
+				out = append(out, rel)
+				break
+			}
+		}
+		return nil
+	})
+	sort.Strings(out)
+	return out
+}
+
 func scanBodies(root string) []*fnDecl {
 	var decls []*fnDecl
 	var pkgsSeen []*pkgInfo
+	scanStats = scanStat{}
+	scanStats.skipped = skippedPackages(root)
 	for _, dir := range goPackages(root) {
 		p, e := loadPkg(dir)
 		if e != nil || p == nil || p.pkg == nil {
+			rel, _ := filepath.Rel(root, dir)
+			scanStats.failed = append(scanStats.failed, rel)
 			continue
 		}
+		scanStats.scanned++
 		rel, _ := filepath.Rel(root, dir)
 		full := libPrefix
 		if rel != "." {
@@ -579,7 +623,7 @@ func bodiesV(decls []*fnDecl) string {
 		"   non-internal package), number of registers, number of parameter registers, the parameters the function may\n" +
 		"   WRITE THROUGH and those it may KEEP (API: none except the documented exceptions; internal helper: the\n" +
 		"   inferred contract, which every call site must meet with slices the caller owns - checked in Coq on the call\n" +
-		"   records SCall), the registers that stand for objects (one per may-alias class; never copied), the named\n" +
+		"   records SCall), the registers that stand for objects (one per may-alias class, computed by the translator; never copied into another object register), the named\n" +
 		"   types of the object parameters, the body. *)\n")
 	b.WriteString("From Coq Require Import List String.\nFrom Tink Require Import Heap HeapProg.\nImport ListNotations.\nOpen Scope string_scope.\n")
 	b.WriteString("Record fn_body := mkBody { fb_pkg : string; fb_fn : string; fb_api : bool; fb_nregs : nat; fb_np : nat;\n" +
@@ -670,9 +714,6 @@ func bodiesV(decls []*fnDecl) string {
 			if d.viewWhy != "" {
 				exc = append(exc, [3]string{d.rel, d.name, "returns a view: " + d.viewWhy})
 			}
-			if d.tr.streamKeeps > 0 {
-				exc = append(exc, [3]string{d.rel, d.name, "builds a per-stream object (an io.Writer / io.Reader implementation) that keeps byte slices it was given: the state of one stream, not of a key, handle or primitive"})
-			}
 		}
 	}
 	b.WriteString("].\n")
@@ -692,7 +733,10 @@ func bodiesV(decls []*fnDecl) string {
 	list3("c19_body_exceptions", exc)
 	b.WriteString("(* WHITELIST: an object of one of these types that the function was handed may be stored, returned or passed on\n" +
 		"   as a whole without counting as an escape of caller memory (its byte fields, when selected, are still memory the\n" +
-		"   function does not own).  Checked on the table: no entry writes through or stores into a parameter of such a type. *)\n")
+		"   function does not own).  The list is INFERRED by the translator (a library struct type whose byte-reaching fields\n" +
+		"   are all unexported leaves it as soon as some translated function writes through, stores anything into, or hands\n" +
+		"   out a view of a parameter or receiver of that type).  Re-checked in Coq on the table: only that no entry has a\n" +
+		"   WRITE flag on a parameter of such a type (immutable_types_are_not_written). *)\n")
 	b.WriteString("Definition c19_immutable_types : list (string * string) := [")
 	for i, u := range immutableList() {
 		if i > 0 {
@@ -712,6 +756,25 @@ func bodiesV(decls []*fnDecl) string {
 	b.WriteString("(* considered = functions and methods with a byte-carrying parameter, receiver or result (the definition of\n" +
 		"   the property), plus internal helpers that only take interface values (translated so that callers need not\n" +
 		"   assume they keep what they are handed), plus function literals that capture no byte variable *)\n")
+	b.WriteString("(* packages: scanned; not scanned (generated protobuf code, test utilities, fake KMS, internalapi, docs - the\n" +
+		"   directories harness/cmd/translate/alias.go goPackages skips); failed to load *)\n")
+	nProto := 0
+	var other []string
+	for _, d := range scanStats.skipped {
+		if strings.HasPrefix(d, "proto/") || d == "proto" {
+			nProto++
+		} else {
+			other = append(other, coqStr(d))
+		}
+	}
+	fmt.Fprintf(&b, "Definition c19_packages_scanned : nat := %d.\n", scanStats.scanned)
+	fmt.Fprintf(&b, "Definition c19_packages_skipped_generated_proto : nat := %d.\n", nProto)
+	fmt.Fprintf(&b, "Definition c19_packages_skipped_other : list string := [%s].\n", strings.Join(other, "; "))
+	var failed []string
+	for _, d := range scanStats.failed {
+		failed = append(failed, coqStr(d))
+	}
+	fmt.Fprintf(&b, "Definition c19_packages_failed_to_load : list string := [%s].\n", strings.Join(failed, "; "))
 	fmt.Fprintf(&b, "Definition c19_bodies_helpers_with_interface_parameters : nat := %d.\n", nHelp)
 	fmt.Fprintf(&b, "Definition c19_bodies_function_literals : nat := %d.\n", nLit)
 	fmt.Fprintf(&b, "Definition c19_bodies_considered : nat := %d.\n", len(decls))
